@@ -11,10 +11,10 @@ CHECK = {
     "tests": [
         T("accache", "TestC09PipelineFaults",
           {"checks": 6000, "shards": 2, "timeout": 300},
-          {"checks": 60000, "shards": 8, "timeout": 1500}),
+          {"checks": 45000, "shards": 8, "timeout": 1500}),
         T("accache", "TestC09BatchedStoreFlush",
           {"checks": 8000, "shards": 2, "timeout": 300},
-          {"checks": 100000, "shards": 8, "timeout": 1500}),
+          {"checks": 80000, "shards": 8, "timeout": 1500}),
     ],
 }
 META = {
